@@ -109,6 +109,11 @@ Section Calls.
 Variable fp : bytes -> option bytes -> bytes -> option bool.
 (* the (type, letter, tag) triples the hypothesis on contents speaks about *)
 Variable U : list (bytes * option bytes * bytes).
+(* two uses of the same interpreter: strict (lax = false) gives up as soon as a rejection is possible, so an answer
+   means "every described text is accepted"; lax (lax = true) drops the paths that certainly reject and keeps every path
+   that may go on, so an answer without any accepting outcome means "every described text is rejected" *)
+Variable lax : bool.
+Definition rej (code : nat) (ctx : list bytes) : res ast := if lax then Ok bot else Fail code ctx.
 
 Definition triple_eqb (a b : bytes * option bytes * bytes) : bool :=
   match a, b with
@@ -158,7 +163,9 @@ Fixpoint afirst_letter (a base : bytes) (ls : list bytes) : option bytes :=
 Definition consumed (S : ast) (ty : bytes) (l : option bytes) (tag : bytes) (r : re) (d : dst) : res ast :=
   match verdict ty l tag with
   | Some true => match consume S tag r with Some S' => Ok (abind S' d true) | None => Fail 3 [tag] end
-  | _ => Fail 4 [ty; tag]
+  | Some false => rej 4 [ty; tag]
+  | None => if lax then match consume S tag r with Some S' => Ok (abind S' d true) | None => Fail 3 [tag] end
+            else Fail 4 [ty; tag]
   end.
 
 Definition acall1 (x : stmt) (S : ast) (h : hd) : res ast :=
@@ -167,9 +174,9 @@ Definition acall1 (x : stmt) (S : ast) (h : hd) : res ast :=
       match h with
       | HCons a r =>
           if bytes_eqb a tag then
-            if nodup_ok S tag then consumed S ty None tag r d else Fail 3 [tag]
-          else Fail 2 [tag; a]
-      | HEmpty => Fail 2 [tag]
+            if nodup_ok S tag || lax then consumed S ty None tag r d else Fail 3 [tag]
+          else rej 2 [tag; a]
+      | HEmpty => rej 2 [tag]
       end
   | SOpt ty tag d =>
       match h with
@@ -182,10 +189,10 @@ Definition acall1 (x : stmt) (S : ast) (h : hd) : res ast :=
       match h with
       | HCons a r =>
           match afirst_letter a base letters7 with
-          | Some l => if nodup_ok S a then consumed S fam (Some l) a r d else Fail 3 [a]
-          | None => Fail 2 [base; a]
+          | Some l => if nodup_ok S a || lax then consumed S fam (Some l) a r d else Fail 3 [a]
+          | None => rej 2 [base; a]
           end
-      | HEmpty => Fail 2 [base]
+      | HEmpty => rej 2 [base]
       end
   | SOptV fam base d =>
       match h with
@@ -296,25 +303,33 @@ Fixpoint asexec (n : nat) (ss : list stmt) (S : ast) : res aout :=
           | Fail e y => Fail e y
           end
       | SBreak => Ok {| o_next := bot; o_break := S; o_ret := false |}
-      | SFail m => Fail 6 (m :: heads (a_cur S))
+      | SFail m => if lax then Ok out_bot else Fail 6 (m :: heads (a_cur S))
       | SPeek all base arms d =>
           match apeek (asexec n') (if all then letters26 else letters7) base arms d S (a_cur S) with
           | Ok o => continue o
           | Fail e y => Fail e y
           end
       | SWhileLetOk _ _ | STryElse _ _ _ _ => Fail 9 []
-      | SVerifyComplete => if forallb is_empty_hd (a_cur S) then asexec n' r S else Fail 7 (heads (a_cur S))
+      | SVerifyComplete =>
+          if lax then asexec n' r (a_with_cur S (filter is_empty_hd (a_cur S)))
+          else if forallb is_empty_hd (a_cur S) then asexec n' r S else Fail 7 (heads (a_cur S))
       | SReturnOk => Ok {| o_next := bot; o_break := bot; o_ret := true |}
       end
     end
   end.
 
 Definition start (R : re) : ast := {| a_cur := hnf_live R; a_seen := []; a_dup := Some false; a_env := [] |}.
+End Calls.
+
 (* the layout accepts every word of the expression: the only outcome is ReturnOk *)
-Definition includes (n : nat) (L : list stmt) (R : re) : bool :=
-  match asexec n L (start R) with
+Definition includes fp U (n : nat) (L : list stmt) (R : re) : bool :=
+  match asexec fp U false n L (start R) with
   | Ok o => negb (is_bot (start R)) && is_bot (o_next o) && is_bot (o_break o)
   | Fail _ _ => false
   end.
-
-End Calls.
+(* the layout rejects every word of the expression: no outcome but rejection remains *)
+Definition excludes fp U (n : nat) (L : list stmt) (R : re) : bool :=
+  match asexec fp U true n L (start R) with
+  | Ok o => negb (is_bot (start R)) && is_bot (o_next o) && is_bot (o_break o) && negb (o_ret o)
+  | Fail _ _ => false
+  end.
